@@ -572,6 +572,10 @@ func (r *Run) callSSA(caller *frame, callpos token.Pos, fn *ssa.Function, args [
 			r.stubs[key]++
 			return ext(fr, args)
 		}
+		if r.eng.sinkFuncs[key] {
+			r.stubs["sink:"+key]++
+			return r.sinkResult(fn.Signature.Results())
+		}
 		pkg := fnPkg(fn)
 		if pkg != nil {
 			if r.eng.isTargetPkg(pkg) && strings.HasPrefix(fn.Name(), "vf") {
